@@ -242,6 +242,24 @@ def routes(job):
                 bad("route-pixel-lookup/raises:%s" % type(e).__name__, repr(e), cfg)
         # ... and at points 4% of the way from each corner towards the centre (well inside the tile, but
         # close enough to its edges that a size-independent tolerance would misplace them in deep tiles)
+        if 19 <= n <= 22:
+            # tiles touching a pole: a point 1.0e-8 rad from the pole towards the tile's centre (7e-9 rad from both
+            # sides, beyond the rounding allowance at these depths).  There sin(lat) rounds to 1, so a lookup that
+            # recovers cos(lat) from it loses the longitude
+            for k in range(4):
+                if abs(abs(float(tg.lonlat(c[k])[1])) - np.pi / 2) < 1e-12:
+                    # (built in longitude/latitude: a unit vector cannot hold a point this close to the pole)
+                    qlon = float(tg.lonlat(cen)[0])
+                    qlat = float(np.sign(tg.lonlat(c[k])[1])) * (np.pi / 2 - 1.0e-8)
+                    q = tg.vec(qlon, qlat)
+                    part.count("pole_proximity_lookups")
+                    try:
+                        pq = toast.toast_tile_for_point(n, float(qlat), float(qlon), coordsys=cs)
+                    except Exception as e:
+                        bad("route-lookup/raises:%s" % type(e).__name__, repr(e), cfg)
+                        break
+                    if tuple(pq.pos) != (n, x, y) and not _within_rounding(tuple(pq.pos), q, n, planetary):
+                        bad("route-lookup/wrong-tile-near-pole", "lookup 1.0e-8 rad from the pole, inside this tile, returned %r" % (tuple(pq.pos),), cfg)
         if n >= 8:
             for k in range(4):
                 q = tg._norm(0.96 * c[k] + 0.04 * cen)
